@@ -27,7 +27,7 @@ func NewTripleDES(key, iv []byte) BlockCryptor {
 	return &tripleDESCrypt{
 		block: block,
 		key:   key,
-		iv:    iv,
+		iv:    append(make([]byte, 0, len(iv)), iv...), // private copy, capacity = length
 	}
 }
 
